@@ -110,6 +110,10 @@ class Behaviour:
             # with a waypoint alphabet the same target is revisited (goto T, goto U, goto T again)
             q = tuple(r.choice(p["waypoints"])) if p.get("waypoints") else lattice(r)
             return ["goto", fbits(q[0]), fbits(q[1]), fbits(q[2])]
+        if op == "gotoHere":
+            # "stop where you are": a goto to the node's own reported position (resolved by the
+            # recorder from the telemetry payload; only meaningful in telemetry callbacks)
+            return ["gotoHere"] if kind == "telemetry" else None
         if op == "gotoGeo":
             ref = p.get("geoRef", (0.0, 0.0, 0.0))
             lat = ref[0] + r.choice([-1, 1]) * r.randint(0, 40) / 65536.0
@@ -161,6 +165,26 @@ def gen_cfg(r, **force):
     return cfg, geo_ref
 
 
+def make_fine(scn):
+    """rescale a scenario to the fine regime: 2^40 ticks per second, every quantity multiplied by 2^30
+    (so simulated seconds are unchanged) and offsets of a single tick (9e-13 s) added: requests one
+    tick in the past must still be refused, events one tick after a bound must not run"""
+    F = 2 ** 30
+    cfg, prof = scn["cfg"], scn["profile"]
+    scn["tick"] = 2.0 ** 40
+    for k in ("delay", "dt"):
+        cfg[k] = cfg[k] * F
+    if cfg["duration"] is not None:
+        cfg["duration"] = cfg["duration"] * F
+    cfg["dtS"] = fbits(cfg["dt"] / scn["tick"])
+    base = Behaviour(0, cfg).p
+    offs = prof.get("offsets", base["offsets"])
+    prof["offsets"] = [o * F for o in offs] + [-1, -1, 1, 1]
+    prof["horizon"] = prof.get("horizon", base["horizon"]) * F
+    prof["base"] = prof.get("base", 0) * F
+    return scn
+
+
 def gen_scenario(seed, force_cfg=None, profile=None, drive=None):
     r = random.Random(stable_hash("scn", seed))
     cfg, geo_ref = gen_cfg(r, **(force_cfg or {}))
@@ -178,7 +202,20 @@ def gen_scenario(seed, force_cfg=None, profile=None, drive=None):
             drive = {"mode": "start"}
         else:
             drive = {"mode": "steps", "n": r.choice([0, 1, 3, 10, 50, 400])}
+    if drive["mode"] == "start" and r.random() < 0.25:
+        drive["pre"] = r.choice([1, 2, 5, 30])          # mixed driving: manual steps, then blocking start
     scn = {"cfg": cfg, "table": [], "drive": drive, "seed": seed, "profile": prof}
+    if r.random() < 0.15:
+        # requests issued through the providers after build() and before the simulation starts
+        beh0 = Behaviour(stable_hash("pre", seed), cfg, prof)
+        rows = []
+        for n in r.sample(range(cfg["nNodes"]), min(cfg["nNodes"], r.choice([1, 1, 2]))):
+            reqs = [q for q in (beh0.make(r, r.choice(["setTimer", "setTimer", "cancelTimer", "goto", "setSpeed", "send"]),
+                                          n, "initialize", "", 0, 0) for _ in range(r.randint(1, 3))) if q]
+            if reqs:
+                rows.append({"n": n, "reqs": reqs})
+        if rows:
+            scn["prestart"] = rows
     # observation / usage options that must not matter: profiling on, command objects re-used
     if r.random() < 0.25:
         scn["simOptions"] = {"profile": True}
